@@ -19,7 +19,7 @@ from .converters import Converter, make_converter, data_is_sequence
 from .errors import ConvertError, ParseInterrupt, ErrorNode
 from .errors import WrongTypeError, WrongLenError, ProductErrorNode, DuplicateKeyError
 from .field import Field, FieldSpec, field, RenameStyle, rename_field, _MISSING
-from .util import get_type_hints, list_phrase, KW_ONLY
+from .util import get_type_hints, list_phrase, collect_typevars, KW_ONLY
 from . import io
 
 
@@ -444,7 +444,8 @@ def _make_subclass_inner(cls: t.Any, params: t.Tuple[t.Any, ...]) -> type:
     return type(cls.__name__, (cls,), {
         PANE_BOUNDVARS: bound_vars,
         '__origin__': cls,
-        '__parameters__': getattr(alias, '__parameters__'),
+        # (not the alias's: `typing` doesn't look for type variables inside real classes such as ``Other[T]``)
+        '__parameters__': collect_typevars(params),
     })
 
 
